@@ -90,6 +90,8 @@ var errTable = map[string]tabEntry{
 	"queryer.(*MultiOpQueryer).Subscribe$2$1/drop net.Conn.Close":   {1, "closing the upstream connection on teardown: nothing to report to"},
 	"queryer.(*MultiOpQueryer).sendRequest/drop io.ReadCloser.Close": {1, "body already read completely; Close error carries no information for the caller"},
 	"pebbles.(Results).Emit/drop (*encoding/json.Encoder).Encode":    {2, "the status line is already written; an encode/write failure means the client went away and cannot be told"},
+	"playground.(DefaultPlayground).ServePlayground/drop net/http.ResponseWriter.Write": {1,
+		"static playground page: a failed write means the browser went away"},
 	"pebbles.emitError/drop (*encoding/json.Encoder).Encode":         {1, "the status line is already written; an encode/write failure means the client went away and cannot be told"},
 	"planner.extractSelectionSet/test (*planner.PlanningContext).GetURL": {1,
 		"deliberate fallback: fields without a route (id, fields of interfaces) stay in the current step's selection (comment in the source)"},
